@@ -107,6 +107,10 @@ func canon(sb *strings.Builder, v reflect.Value, exact bool, depth int) {
 			if i > 0 {
 				sb.WriteString(";")
 			}
+			if v.Type().Field(i).Name == "_" {
+				sb.WriteString("_") // blank fields are not part of the value
+				continue
+			}
 			canon(sb, field(v, i), exact, depth+1)
 		}
 		sb.WriteString(")")
